@@ -66,15 +66,17 @@ func init() {
 	vxRegister("H07mT", H07mT)
 }
 
-func H07mQ() { h07m(1) }
-func H07mT() { h07m(2) }
+func H07mQ() { h07m(false) }
+func H07mT() { h07m(true) }
 
 // h07m: Match is shift-equivariant - X embedded between out-of-vocabulary blocks yields exactly the
 // matches of X alone, shifted by the size of the preceding block.
-func h07m(edits int) {
-	t := []float64{0.7, 0.8}[vxChoice(2)]
-	worlds := [][]int{{1}, {0, 1}}
-	if edits > 1 {
+func h07m(thorough bool) {
+	edits := 2
+	t := 0.7
+	worlds := [][]int{{1}}
+	if thorough {
+		t = []float64{0.7, 0.8}[vxChoice(2)]
 		worlds = [][]int{{0}, {1}, {0, 1}, {2, 3}}
 	}
 	docs := worlds[vxChoice(len(worlds))]
@@ -82,15 +84,23 @@ func h07m(edits int) {
 	K := vxFamily[docs[vxChoice(len(docs))]]
 	X := vxNoisyCopy(K, []string{"a", "b", "h"}, edits)
 	vxAssume(len(X) >= c.q)
-	pat := vxChoice(3)
+	pat := 0
+	if thorough {
+		pat = vxChoice(3)
+	}
 	xw, xb := vxEmbed(X, 0, 0, pat)
 	if len(xb) > 0 {
 		xb[len(xb)-1] = false
 	}
 	alone := vxText(xw, xb)
-	a, b := vxChoice(4), vxChoice(4) // 0 = X at the very start / very end of the input
-	vxAssume(a+b > 0)
-	plines := vxChoice(2) + 1 // the prefix block occupies 1 or 2 lines and ends with a newline
+	// 0 = X at the very start / very end of the input
+	a, b := []int{0, 3}[vxChoice(2)], vxChoice(2)
+	plines := 1
+	if thorough {
+		a, b = vxChoice(4), vxChoice(4)
+		plines = vxChoice(2) + 1
+	}
+	vxAssume(a+b > 0) // the prefix block occupies 1 or 2 lines and ends with a newline
 	var pre []byte
 	for i := 0; i < a; i++ {
 		pre = append(pre, "zzz"...)
